@@ -68,7 +68,7 @@ func runC39(c *core.Ctx) {
 			}
 		}
 	}
-	c.Floor("insertions into the signer-address set", len(inserts), 2)
+	c.Floor("insertions into the signer-address set", len(inserts), 1)
 	if len(inserts) == 0 {
 		return
 	}
@@ -87,23 +87,99 @@ func runC39(c *core.Ctx) {
 			}
 		}
 	}
+	// per-entry host: the loop body of fn, or a same-package helper handed the entry by value that
+	// answers (address, error); then the address sites are the helper's error-free returns and the
+	// caller inserts exactly the helper's answer under its err == nil
+	host := fn
+	type addrSite struct {
+		in  ssa.Instruction
+		key ssa.Value
+		ret *ssa.Return
+	}
+	var sites []addrSite
+	if entry == nil {
+		for _, in := range lp.Body.Instrs {
+			cl, isCl := in.(*ssa.Call)
+			if !isCl {
+				continue
+			}
+			h := cl.Common().StaticCallee()
+			if h == nil || h.Pkg != fn.Pkg || len(h.Blocks) == 0 || h.Signature.Results().Len() != 2 {
+				continue
+			}
+			for ai, a := range cl.Common().Args {
+				ld, isLd := a.(*ssa.UnOp)
+				if !isLd {
+					continue
+				}
+				ia, isIa := ld.X.(*ssa.IndexAddr)
+				if !isIa {
+					continue
+				}
+				if b, f, okf := fieldLoad(ia.X); !okf || f != "Sigs" || !isTx(b) {
+					continue
+				}
+				// the helper's spill of that parameter
+				for _, hin := range h.Blocks[0].Instrs {
+					if st, isSt := hin.(*ssa.Store); isSt && ai < len(h.Params) && st.Val == ssa.Value(h.Params[ai]) {
+						if al, isAl := st.Addr.(*ssa.Alloc); isAl {
+							entry = al
+						}
+					}
+				}
+				if entry == nil {
+					continue
+				}
+				host = h
+				defer ir.BindParams(h, cl.Common().Args)()
+				c.Attribute(h, fn)
+				// the caller inserts the helper's answer, only when the helper reported no error
+				okIns := len(inserts) > 0
+				for _, mu := range inserts {
+					k, ki := ir.CallOf(mu.Key)
+					if k != cl || ki != 0 {
+						okIns = false
+					}
+				}
+				c.Decide(okIns, "C39.address", fn, "the address inserted is the one the per-entry helper answered", c.P.Rel(cl.Pos()), "")
+				var insSinks []ir.Sink
+				for _, mu := range inserts {
+					insSinks = append(insSinks, ir.Sink{Instr: mu, Note: "address insertion"})
+				}
+				eng.Dominates(c, "C39.per-entry", fn, eng.NamedGuard{Name: h.Name() + " err==nil", G: ir.ErrNil(func(x *ssa.Call) bool { return x == cl })}, insSinks, "address insertion (per entry)", &eng.Opt{StartBlock: lp.Body})
+				for _, s := range ir.SuccessSinks(h) {
+					if ret, isRet := s.Instr.(*ssa.Return); isRet {
+						sites = append(sites, addrSite{ret, ret.Results[0], ret})
+					}
+				}
+			}
+		}
+	}
 	if entry == nil {
 		c.Broken("C39.per-entry", fn, "entry variable sig = tx.Sigs[i]", c.P.Rel(lp.Cond.Pos()), "not found")
 		return
+	}
+	if host == fn {
+		for _, mu := range inserts {
+			sites = append(sites, addrSite{mu, mu.Key, nil})
+		}
 	}
 	isEntry := func(v ssa.Value) bool { return v == entry }
 	kn := isLenOfField("PubKeys", isEntry)
 	sn := isLenOfField("SigData", isEntry)
 	m := isFieldOf("M", isEntry)
 	opt := &eng.Opt{StartBlock: lp.Body}
-	var sinks []ir.Sink
-	for _, mu := range inserts {
-		sinks = append(sinks, ir.Sink{Instr: mu, Note: "address insertion"})
+	if host != fn {
+		opt = nil
 	}
-	eng.Dominates(c, "C39.per-entry", fn, relGuard("len(sig.PubKeys) <= MULTI_SIG_MAX_PUBKEY_SIZE", kn, isConstInt(kKey), token.LEQ), sinks, "address insertion (per entry)", opt)
-	eng.Dominates(c, "C39.per-entry", fn, relGuard("len(sig.SigData) >= m", sn, m, token.GEQ), sinks, "address insertion (per entry)", opt)
-	eng.Dominates(c, "C39.per-entry", fn, relGuard("m <= len(sig.PubKeys)", m, kn, token.LEQ), sinks, "address insertion (per entry)", opt)
-	eng.Dominates(c, "C39.per-entry", fn, relGuard("m > 0", m, isConstInt(0), token.GTR), sinks, "address insertion (per entry)", opt)
+	var sinks []ir.Sink
+	for _, st := range sites {
+		sinks = append(sinks, ir.Sink{Instr: st.in, Note: "address insertion"})
+	}
+	eng.Dominates(c, "C39.per-entry", host, relGuard("len(sig.PubKeys) <= MULTI_SIG_MAX_PUBKEY_SIZE", kn, isConstInt(kKey), token.LEQ), sinks, "address insertion (per entry)", opt)
+	eng.Dominates(c, "C39.per-entry", host, relGuard("len(sig.SigData) >= m", sn, m, token.GEQ), sinks, "address insertion (per entry)", opt)
+	eng.Dominates(c, "C39.per-entry", host, relGuard("m <= len(sig.PubKeys)", m, kn, token.LEQ), sinks, "address insertion (per entry)", opt)
+	eng.Dominates(c, "C39.per-entry", host, relGuard("m > 0", m, isConstInt(0), token.GTR), sinks, "address insertion (per entry)", opt)
 	eng.IterationMustExec(c, "C39.per-entry", fn, lp.Header, lp.Body, "the loop over tx.Sigs", "an insertion into the signer-address set", func(in ssa.Instruction) bool {
 		mu, ok := in.(*ssa.MapUpdate)
 		return ok && mu.Map == set
@@ -111,7 +187,7 @@ func runC39(c *core.Ctx) {
 
 	// hash[:] of tx.Hash()
 	isHash := func(v ssa.Value) bool {
-		sl, ok := v.(*ssa.Slice)
+		sl, ok := ir.Resolve(v).(*ssa.Slice)
 		if !ok || sl.Low != nil || sl.High != nil {
 			return false
 		}
@@ -141,32 +217,45 @@ func runC39(c *core.Ctx) {
 
 	nSingle, nMulti := 0, 0
 	for _, mu := range inserts {
-		one := []ir.Sink{{Instr: mu, Note: "address insertion"}}
 		if kb, ok := ir.ConstBool(mu.Value); !ok || !kb {
 			c.Violate("C39.address", fn, "the set records membership (value true)", c.P.Rel(mu.Pos()), "")
 		}
-		if cl := calleeNamed(mu.Key, "AddressFromPubKey"); cl != nil && ir.CalleeIs(cl, afp) {
+	}
+	for _, site := range sites {
+		mu := site
+		one := []ir.Sink{{Instr: mu.in, Note: "address insertion"}}
+		if cl := calleeNamed(mu.key, "AddressFromPubKey"); cl != nil && ir.CalleeIs(cl, afp) {
 			nSingle++
-			c.Decide(elem0("PubKeys")(cl.Common().Args[0]), "C39.address", fn, "single-key entry is attributed AddressFromPubKey(sig.PubKeys[0])", c.P.Rel(mu.Pos()), "")
-			eng.Dominates(c, "C39.single", fn, relGuard("len(sig.PubKeys) == 1", kn, isConstInt(1), token.EQL), one, "single-key address insertion", opt)
-			eng.Dominates(c, "C39.single", fn, eng.NamedGuard{Name: "signature.Verify(sig.PubKeys[0], hash[:], sig.SigData[0]) err==nil", G: ir.ErrNil(func(x *ssa.Call) bool {
+			c.Decide(elem0("PubKeys")(cl.Common().Args[0]), "C39.address", fn, "single-key entry is attributed AddressFromPubKey(sig.PubKeys[0])", c.P.Rel(mu.in.Pos()), "")
+			eng.Dominates(c, "C39.single", host, relGuard("len(sig.PubKeys) == 1", kn, isConstInt(1), token.EQL), one, "single-key address insertion", opt)
+			eng.Dominates(c, "C39.single", host, eng.NamedGuard{Name: "signature.Verify(sig.PubKeys[0], hash[:], sig.SigData[0]) err==nil", G: ir.ErrNil(func(x *ssa.Call) bool {
 				a := x.Common().Args
 				return ir.CalleeIs(x, verify) && elem0("PubKeys")(a[0]) && isHash(a[1]) && elem0("SigData")(a[2])
 			})}, one, "single-key address insertion", opt)
 			continue
 		}
-		if cl, idx := ir.CallOf(mu.Key); cl != nil && idx == 0 && ir.CalleeIs(cl, afm) {
+		if cl, idx := ir.CallOf(mu.key); cl != nil && idx <= 0 && ir.CalleeIs(cl, afm) {
 			nMulti++
 			a := cl.Common().Args
-			c.Decide(whole("PubKeys")(a[0]) && m(a[1]), "C39.address", fn, "multi-key entry is attributed AddressFromMultiPubKeys(sig.PubKeys, m)", c.P.Rel(mu.Pos()), "")
-			eng.Dominates(c, "C39.multi", fn, eng.NamedGuard{Name: "AddressFromMultiPubKeys err==nil", G: ir.ErrNil(func(x *ssa.Call) bool { return x == cl })}, one, "multi-key address insertion", opt)
-			eng.Dominates(c, "C39.multi", fn, eng.NamedGuard{Name: "VerifyMultiSignature(hash[:], sig.PubKeys, m, sig.SigData) err==nil", G: ir.ErrNil(func(x *ssa.Call) bool {
+			c.Decide(whole("PubKeys")(a[0]) && m(a[1]), "C39.address", fn, "multi-key entry is attributed AddressFromMultiPubKeys(sig.PubKeys, m)", c.P.Rel(mu.in.Pos()), "")
+			forwardsErr := false
+			if mu.ret != nil && len(mu.ret.Results) == 2 {
+				if e, ei := ir.CallOf(mu.ret.Results[1]); e == cl && ei == 1 {
+					forwardsErr = true // `return AddressFromMultiPubKeys(...)`: its error is the helper's error, tested by the caller
+				}
+			}
+			if forwardsErr {
+				c.Hold("C39.multi", host, "AddressFromMultiPubKeys err==nil ≺ multi-key address insertion", c.P.Rel(mu.in.Pos()), "the derivation's error is returned as the helper's error")
+			} else {
+				eng.Dominates(c, "C39.multi", host, eng.NamedGuard{Name: "AddressFromMultiPubKeys err==nil", G: ir.ErrNil(func(x *ssa.Call) bool { return x == cl })}, one, "multi-key address insertion", opt)
+			}
+			eng.Dominates(c, "C39.multi", host, eng.NamedGuard{Name: "VerifyMultiSignature(hash[:], sig.PubKeys, m, sig.SigData) err==nil", G: ir.ErrNil(func(x *ssa.Call) bool {
 				a := x.Common().Args
 				return ir.CalleeIs(x, vms) && isHash(a[0]) && whole("PubKeys")(a[1]) && m(a[2]) && whole("SigData")(a[3])
 			})}, one, "multi-key address insertion", opt)
 			continue
 		}
-		c.Violate("C39.address", fn, "inserted address is AddressFromPubKey / AddressFromMultiPubKeys of the entry", c.P.Rel(mu.Pos()), "unrecognised key "+mu.Key.Name())
+		c.Violate("C39.address", fn, "inserted address is AddressFromPubKey / AddressFromMultiPubKeys of the entry", c.P.Rel(mu.in.Pos()), "unrecognised key "+mu.key.Name())
 	}
 	c.Decide(nSingle >= 1 && nMulti >= 1, "C39.address", fn, "both entry kinds attribute an address", c.P.Rel(fn.Pos()), sprintf("%d single, %d multi", nSingle, nMulti))
 
